@@ -91,6 +91,36 @@ func checkRenumber(c *Ctx) error {
 	}
 	run(pass, "np", true)
 	run(fail, "nf", false)
+	// mixed trees: a misnumbered file that is NOT the last one walked, followed by numbered files
+	// and files that are not test files at all: --check --all must still fail
+	nm := len(fail)
+	if nm > 40 {
+		nm = 40
+	}
+	parallel(nm, 16, func(i int) {
+		if len(pass) == 0 {
+			return
+		}
+		root, err := c.newSandbox(fmt.Sprintf("nm%d", i))
+		if err != nil {
+			return
+		}
+		defer os.RemoveAll(root)
+		good := pass[i%len(pass)]
+		writeTree(root, Tree{"regex-assembly/": "",
+			"tests/regression/tests/a-first/932100.yaml":  fail[i*(len(fail)/nm)].Raw,
+			"tests/regression/tests/m-middle/932100.yaml": good.Raw,
+			"tests/regression/tests/z-last/932100.yml":    good.Raw,
+			"tests/regression/tests/z-last/zz-notes.md":   "no test here\n"})
+		for _, mode := range [][]string{{}, {"-o", "github"}} {
+			args := append(append([]string{"-d", root}, mode...), "util", "renumber-tests", "--check", "--all")
+			r := c.runCLI(root, "", args...)
+			atomic.AddInt64(&cli, 1)
+			if r.Exit == 0 {
+				c.violation("renumber", map[string]any{"why": "renumber-tests --check --all succeeds although the first file walked needs renumbering (later files are fine)", "mode": mode, "file": fail[i*(len(fail)/nm)].Raw})
+			}
+		}
+	})
 	// single-file command: per-file --check verdicts and the rewrite
 	var singles []RenumCase
 	step := len(fail)/300 + 1
